@@ -236,7 +236,12 @@ def build(cfg, E):
     sdirs = ds[order]
     extra = list(cfg.get("extra", ["time", "site"]))
     shp = extra_shape(extra, N)
-    arr = stored.reshape(shp + (nf, nd)).astype(cfg.get("dtype", "float64"))
+    arr = stored.reshape(shp + (nf, nd))
+    if np.dtype(cfg.get("dtype", "float64")).kind in "iu":
+        # integer-stored spectra (counts, unpacked shorts): the values in units of the smallest positive one
+        pos = arr[arr > 0]
+        arr = np.rint(arr / (pos.min() if pos.size else 1.0))
+    arr = arr.astype(cfg.get("dtype", "float64"))
     cdt = cfg.get("cdtype", "f8")
     coords = {"freq": f.astype("f4") if cdt == "f4" else f,
               "dir": sdirs.astype({"f8": "f8", "f4": "f4", "i8": "i8"}[cdt])}
@@ -385,7 +390,8 @@ def run_call(cfg, E, fw, dw, ref=None):
         return [(None, c, m) for c, m in gb], None, None
     E_used = to_sorted(src.values, src, order, N)
     res = to_sorted(vals, src, order, N)
-    eps = max(np.finfo(np.asarray(src.values).dtype).eps, np.finfo(vals.dtype).eps if vals.dtype.kind == "f" else 0.0)
+    sdt = np.asarray(src.values).dtype
+    eps = max(np.finfo(sdt).eps if sdt.kind == "f" else np.finfo(np.float64).eps, np.finfo(vals.dtype).eps if vals.dtype.kind == "f" else 0.0)
     use_ref = ref if (ref is not None and np.dtype(cfg.get("dtype", "float64")) == np.float64) else None
     bad = value_checks(E_used, res, fw, dw, bool(cfg["circular"]), eps, use_ref)
     return bad, res, E_used
@@ -490,7 +496,7 @@ def shift_check(cfg, E, fw, dw, k, r1=None):
         r2 = to_sorted(o2.values, src2, order, N)
     except Exception as e:  # noqa
         return [(None, "raises:" + type(e).__name__, "odd windows (%d,%d) raised %s: %s" % (fw, dw, type(e).__name__, str(e)[:300]))], None
-    eps = np.finfo(np.dtype(cfg.get("dtype", "float64"))).eps
+    eps = np.finfo(np.dtype(cfg.get("dtype", "float64")) if np.dtype(cfg.get("dtype", "float64")).kind == "f" else np.float64).eps
     scale = np.abs(E).max(axis=(1, 2))[:, None, None]
     ok = np.abs(r2 - np.roll(r1, k, axis=2)) <= 2 * ULPS * eps * scale
     ok &= ~np.isnan(r2)
@@ -640,6 +646,9 @@ def variants(tier, gname, nf, nd, fw, whole_degrees):
                 V.append(("dims2", dict(order=omap[oname], dims=p, extra=[]), "singles"))
     # data dtype / coordinate dtype
     V.append(("dtype", dict(order=omap[rot1], dtype="float32"), "basis"))
+    V.append(("dtype", dict(order=omap[rot1], dtype="int32"), "basis"))
+    if tier == "thorough":
+        V.append(("dtype", dict(order=omap["sorted"], dtype="int64"), "basis"))
     if tier == "thorough" or fw == 1:
         V.append(("dtype", dict(order=omap[rot1], cdtype="f4"), "basis"))
         if whole_degrees:
